@@ -347,12 +347,22 @@ fn get_slice_reference_sequence<'c>(
             .reference_sequences()
             .get_index(context.reference_sequence_id())
             .map(|(name, _)| name)
-            .expect("invalid slice reference sequence ID");
+            .ok_or_else(|| {
+                io::Error::new(
+                    io::ErrorKind::InvalidData,
+                    "invalid slice reference sequence ID",
+                )
+            })?;
 
         let sequence = reference_sequence_repository
             .get(reference_sequence_name)
             .transpose()?
-            .expect("invalid slice reference sequence name");
+            .ok_or_else(|| {
+                io::Error::new(
+                    io::ErrorKind::InvalidInput,
+                    "missing reference sequence in the reference sequence repository",
+                )
+            })?;
 
         // § 8.5 "Slice header block" (2024-09-04): "MD5sums should not be validated if the stored
         // checksum is all-zero."
